@@ -76,6 +76,8 @@ package account
 //
 // Level: the first rule that matches decides.
 //@ func (Mapping).Level
+//@   requires wfMapping(m)
+//@   ensures @nonneg: result.0 >= 0 && result.1 >= 0
 //@   ensures result.2 <==> (exists i int :: 0 <= i && i < len(m) && ruleMatches(m[i], s))
 //@   ensures result.2 ==> (exists i int :: 0 <= i && i < len(m) && ruleMatches(m[i], s) && result.0 == m[i].Level && result.1 == m[i].Suffix
 //@        && (forall j int :: {m[j]} 0 <= j && j < i ==> !ruleMatches(m[j], s)))
